@@ -30,6 +30,11 @@ type SnapshotOpts struct {
 	startSnapshot         func()
 	finishSnapshot        func()
 	setLatestSnapshotTime func(msec int64)
+	// state is the JSON encoding of data (minus expired keys), made when the snapshot was requested.
+	// The values in data are shared with the live store: commands applied after the request change
+	// collections in place, so encoding them only in Persist, which runs concurrently with Apply,
+	// would not give the state as of the snapshot's log index.
+	state json.RawMessage
 }
 
 type Snapshot struct {
@@ -37,6 +42,9 @@ type Snapshot struct {
 }
 
 func NewFSMSnapshot(opts SnapshotOpts) *Snapshot {
+	if state, err := json.Marshal(internal.FilterExpiredKeys(time.Now(), opts.data)); err == nil {
+		opts.state = state
+	}
 	return &Snapshot{
 		options: opts,
 	}
@@ -52,12 +60,18 @@ func (s *Snapshot) Persist(sink raft.SnapshotSink) error {
 		return err
 	}
 
-	snapshotObject := internal.SnapshotObject{
-		State:                      internal.FilterExpiredKeys(time.Now(), s.options.data),
-		LatestSnapshotMilliseconds: int64(msec),
+	var o []byte
+	if s.options.state != nil {
+		o, err = json.Marshal(struct {
+			State                      json.RawMessage
+			LatestSnapshotMilliseconds int64
+		}{s.options.state, int64(msec)})
+	} else {
+		o, err = json.Marshal(internal.SnapshotObject{
+			State:                      internal.FilterExpiredKeys(time.Now(), s.options.data),
+			LatestSnapshotMilliseconds: int64(msec),
+		})
 	}
-
-	o, err := json.Marshal(snapshotObject)
 
 	if err != nil {
 		_ = sink.Cancel()
